@@ -14,6 +14,7 @@
 (*        doc       get_masks() as a list of [axes, counter, kind, x, y] (bounds doubled)           *)
 (*        masks     the masks of masking_node() as lists of point numbers (any order)              *)
 (*        union     the union of all masks as seen on the data                                     *)
+(*        shown     the union of the masks on the data the figure has drawn last                   *)
 (*        intact    displayed data / coordinates are those of the input, the input is unmodified   *)
 (*        out       [asked, file, doc] of a save, else the NoOut record                            *)
 (* Every event gets a verdict: <<"REJECT", line, tid, clause>> per bad one, <<"DONE", n, nbad>>.   *)
@@ -83,6 +84,7 @@ Compare(c, s2, o, obs) ==
         ELSE IF Len(obs.masks) # Len(want.masks) THEN "number_of_masks_differs"
         ELSE IF { ToSet(obs.masks[n]) : n \in 1..Len(obs.masks) } # ToSet(want.masks) THEN "masks_differ"
         ELSE IF ToSet(obs.union) # want.union THEN "union_of_masks_differs"
+        ELSE IF ToSet(obs.shown) # want.union THEN "figure_shows_other_masks"
         ELSE IF ~obs.intact THEN "data_or_input_changed"
         ELSE IF obs.out.asked # want.out.asked THEN "driver_error_out"
         ELSE IF obs.out.file # want.out.file THEN "saved_file_name_differs"
